@@ -1,7 +1,7 @@
 (* Dispatch.v -- single entry point of the executable model: opcode * argument -> result.
    Used identically by the extracted OCaml driver and by in-Coq vm_compute samples. *)
 From Coq Require Import List ZArith.
-From Yv Require Import Base.Sx Run.RunSym Run.RunGeom Run.RunCache Run.RunTrunc Run.RunStruct Run.RunBlock Run.RunFermi Run.RunFusion Run.RunSerial Run.RunLinalg Run.RunMps Run.RunCanon Run.RunKrylov Run.RunSweep Run.RunStep.
+From Yv Require Import Base.Sx Run.RunSym Run.RunGeom Run.RunCache Run.RunTrunc Run.RunStruct Run.RunBlock Run.RunFermi Run.RunFusion Run.RunSerial Run.RunLinalg Run.RunMps Run.RunCanon Run.RunKrylov Run.RunSweep Run.RunStep Run.RunGates.
 Import ListNotations.
 Open Scope Z_scope.
 
@@ -40,6 +40,8 @@ Definition run (op : Z) (arg : sx) : sx :=
   | 140 => run_tdvp_steps arg
   | 141 => run_tdvp_order arg
   | 142 => run_tdvp_half arg
+  | 150 => run_gate_mats arg
+  | 151 => run_gate_form arg
   | _ => sErr 999
   end.
 
